@@ -23,7 +23,8 @@ RULE = ("generated input files (CSV with delimiters , ; | and -s; RTTM; 1-2 file
         "directory), a thorough-tier share also as a real subprocess; the oracle is the API called in the same "
         "process after the same numpy seed with the equivalent arguments, files in the same order; all reported "
         "numbers are parsed back from stdout / the CSV report / the JSON report and compared; for one option per case "
-        "the API is also evaluated with that option at its default, to record that the option mattered on this input. "
+        "the API is also evaluated with that option at its default, to record that the option mattered on this input; files of 4 x 16 and 4 x 32 units "
+        "(a finite window in fast mode) with and without -m: one reading of fast / exact for all of them; runs over three files of which one is unreadable. "
         "non-trivial = every invocation with --seed; distinct by SHA-1 of (files, options)")
 ASSUMPTIONS = [
     "equivalent API call: Continuum.from_csv/from_rttm, CombinedCategoricalDissimilarity(alpha, beta, delta_empty, "
@@ -60,6 +61,8 @@ def write_input(case, d):
             path = os.path.join(d, f"input{i}.csv")
             with open(path, "w", newline="") as fh:
                 w = csv.writer(fh, delimiter=case["separator"])
+                if f.get("unreadable") == "header":
+                    w.writerow(["annotator", "annotation", "segment_start", "segment_end"])      # a header line: the readers refuse the file
                 for a, us in f["ann"].items():
                     for s, e, lab in us:
                         w.writerow([a, lab, s, e])
@@ -457,6 +460,22 @@ def targeted_cases(ctx):
                     "options": {"seed": sd, "alpha": None, "beta": None, "delta": None, "precision": 0.9, "n_samples": 3,
                                 "cat_dissim": None, "gamma_cat": False, "gamma_k": False, "mathet": mathet, "explicit_separator": False},
                     "output": "json", "probe": None})
+    # the same pair on a file with more than 30 units per annotator: one reading for every file size
+    big2 = cases.gen_continuum(rng, n_annot=4, sizes=[32] * 4, family="grid", labels=cases.LABELS_SMALL, allow_empty=False,
+                               names=cases.ANNOTATOR_NAMES[:4])
+    out.append({"files": [{"ann": big2["ann"]}], "format": "csv", "separator": ",", "compare_readings": True,
+                "options": {"seed": sd, "alpha": None, "beta": None, "delta": None, "precision": 0.9, "n_samples": 3,
+                            "cat_dissim": None, "gamma_cat": False, "gamma_k": False, "mathet": False, "explicit_separator": False},
+                "output": "json", "probe": None})
+    # several input files, one of them (not the last) unreadable: whatever the tool reports, it reports under the right file name
+    # (the equivalent API run stops at that file)
+    small = [cases.gen_continuum(rng, n_annot=2, sizes=[4, 4], family="grid", labels=cases.LABELS_SMALL, allow_empty=False) for _ in range(3)]
+    for bad in (1, 0):
+        out.append({"files": [dict({"ann": c_["ann"]}, **({"unreadable": "header"} if k == bad else {})) for k, c_ in enumerate(small)],
+                    "format": "csv", "separator": ",",
+                    "options": {"seed": rng.choice([1, 8]), "alpha": None, "beta": None, "delta": None, "precision": 0.5, "n_samples": 4,
+                                "cat_dissim": None, "gamma_cat": True, "gamma_k": False, "mathet": False, "explicit_separator": False},
+                    "output": rng.choice(["print", "csv", "json"]), "probe": None})
     return out
 
 
